@@ -968,7 +968,10 @@ pub fn lookup(id: &str) -> Option<Check> {
         "C08" => Some(c08()),
         "C10" => Some(c10()),
         "C11" => Some(c11()),
+        "C13" => Some(c13()),
         "C15" => Some(c15()),
+        "C16" => Some(c16()),
+        "C18" => Some(c18()),
         _ => None,
     }
 }
@@ -1055,5 +1058,319 @@ pub fn c10() -> Check {
         assumptions: vec!["only reactions PROTOCOL.md or the statement fix are judged (Reset for Ack/Finish/Push on unknown flows, never Reset for Reset, Reset of only the offending flow on overrun, Reset for Connect with id 0 / in use, Reset for Bind when disabled); reactions left open taint that flow id and are recorded, not judged", "the in-memory link implements tokio-tungstenite's observable contract"],
         real: c.real,
         stub: vec!["the peer (scripted raw peer encoding with the reference codec)", "WebSocket transport (SimWs)", "applications (scripted)", "task scheduler (seeded executor)"],
+    }
+}
+
+// ------------------------------------------------------------------ C13
+
+pub struct C13Family;
+impl Family for C13Family {
+    fn name(&self) -> &'static str {
+        "bridge"
+    }
+    fn runs(&self, tier: Tier) -> u64 {
+        if tier == Tier::Quick { 300_000 } else { 5_000_000 }
+    }
+    fn generate(&self, batch_seed: u64, index: u64, _tier: Tier) -> (Value, u64) {
+        use crate::scriptio::{Fl, R, Wr};
+        let seed = simcore::prng::mix(batch_seed, "bridge", index);
+        let mut r = Prng::new(seed);
+        let r = &mut r;
+        let rwnd = *r.pick(&[1u32, 2, 4, 8]);
+        let mut rs = vec![];
+        for _ in 0..r.below(9) {
+            match r.below(6) {
+                0 => rs.push(R::PendWake),
+                1 => {
+                    rs.push(R::PendWake);
+                    rs.push(R::PendWake);
+                }
+                _ => {}
+            }
+            rs.push(R::Chunk(if r.chance(1, 10) { 1 + r.below(8192) } else { 1 + r.below(40) }));
+        }
+        if r.chance(1, 3) {
+            rs.push(R::PendWake);
+        }
+        rs.push(match r.below(5) {
+            0 | 1 => R::Eof,
+            2 => R::Err,
+            _ => R::PendForever,
+        });
+        let mut ws = vec![];
+        for _ in 0..r.below(12) {
+            ws.push(if r.chance(1, 4) { Wr::PendWake } else { Wr::Accept(1 + r.below(16)) });
+        }
+        if r.chance(1, 6) {
+            ws.push(Wr::Err);
+        }
+        let fls = |r: &mut Prng, perr: u64| -> Vec<Fl> {
+            let mut v = vec![];
+            for _ in 0..r.below(4) {
+                v.push(if r.chance(1, 3) { Fl::PendWake } else { Fl::Ok });
+            }
+            if r.chance(perr, 100) {
+                v.push(Fl::Err);
+            }
+            v
+        };
+        let fl = fls(r, 8);
+        let sh = fls(r, 10);
+        let pushes = (0..r.below(10)).map(|_| if r.chance(1, 10) { 1 + r.below(4000) } else { 1 + r.below(30) }).collect();
+        let plan = C13Plan {
+            ep: EpCfg { rwnd, threshold: 1 + r.below(rwnd as usize) as u32, dgram_buf: 8, stream_buf: 4, bind_buf: 0, retries: 3, ids: vec![] },
+            link: LinkCfg { window: *r.pick(&[1usize, 4, 1 << 20]), latency_ms: if r.chance(1, 5) { 10 } else { 0 }, drop_after_close: false },
+            weights: gen_weights(r),
+            peer_rwnd: *r.pick(&[1u32, 2, 4, 100]),
+            rs,
+            ws,
+            fl,
+            sh,
+            pushes,
+            peer_end: r.below(3) as u8,
+            ack_mode: r.below(3) as u8,
+            peer_yields: r.below(4),
+            bufreader: if r.chance(1, 3) { Some(*r.pick(&[1usize, 7, 64, 8192])) } else { None },
+        };
+        (serde_json::to_value(plan).expect("plan"), seed)
+    }
+    fn exec(&self, plan: &Value, sched: &Sched, record: bool) -> Outcome {
+        let Ok(plan) = serde_json::from_value::<C13Plan>(plan.clone()) else { return Outcome::default() };
+        run_c13(&plan, sched, record)
+    }
+    fn rule(&self) -> &'static str {
+        "a real endpoint accepts a stream from the raw peer and bridges it (into_copy_bidirectional_with_buf, directly or through a BufReader of capacity 1/7/64/8192) with a scripted local byte stream: read side = chunks of 1..8 KiB, Pending->wake, Pending forever, EOF or error; write side = partial acceptance, Pending->wake, error; flush and shutdown = Ok / Pending->wake / error. The peer pushes 0-9 frames (credit permitting), then Finish, Reset or nothing, and acknowledges every frame, never, or in late batches (credit starvation). Oracle: relayed bytes are exact prefixes both ways, Push count <= credit granted, EOF -> exactly one Finish / peer Finish -> local shutdown while the other direction keeps flowing, Ok((r,w)) with true counts once both ended, any returned local error or mux-side BrokenPipe completes the bridge by quiescence. Non-trivial: bytes flowed in both directions."
+    }
+}
+pub fn c13() -> Check {
+    let c = c02();
+    Check {
+        property: "C13",
+        engine: "muxsim",
+        level: "fault_enumeration",
+        families: vec![Box::new(C13Family)],
+        required_probes: vec!["bridge-ok", "bridge-err", "bridge-legitimately-pending", "bridge-coalesced-chunks", "bridge-credit-starved", "fault:local-read-error", "fault:local-write-error", "fault:local-flush-error", "fault:local-shutdown-error", "fault:peer-reset"],
+        assumptions: vec!["a local writer never returns Ok(0) for a non-empty buffer (outside the AsyncWrite contract)", "no particular framing / coalescing or flush discipline is demanded beyond `a flush error ends the bridge`", "a bridge still pending because the peer has not ended its direction (or the local side pends forever) is correct"],
+        real: vec!["penguin_mux::stream_tools::CopyBidirectional", "penguin_mux::MuxStream", "penguin_mux connection task", "frame codec (incl. append_push_data)", "tokio::io::BufReader (in a third of the runs)"],
+        stub: vec!["local byte stream (ScriptIo)", "the peer (raw, reference codec)", "WebSocket transport", "scheduler"],
+    }
+}
+
+// ------------------------------------------------------------------ C16
+
+pub struct C16Family;
+impl Family for C16Family {
+    fn name(&self) -> &'static str {
+        "keepalive"
+    }
+    fn runs(&self, tier: Tier) -> u64 {
+        if tier == Tier::Quick { 60_000 } else { 3_000_000 }
+    }
+    fn generate(&self, batch_seed: u64, index: u64, _tier: Tier) -> (Value, u64) {
+        let seed = simcore::prng::mix(batch_seed, "keepalive", index);
+        let mut r = Prng::new(seed);
+        let r = &mut r;
+        let i_ms = if r.chance(1, 10) { 0 } else { *r.pick(&[500u64, 1000, 2000, 3000, 5000, 25_000]) };
+        let t_req = if r.chance(1, 12) { 0 } else { *r.pick(&[500u64, 1000, 2000, 3000, 7000, 60_000]) };
+        let t = if t_req == 0 { 0 } else { t_req.max(i_ms) };
+        let (mut delays, mut tail) = (vec![], Some(0u64));
+        let mode = r.below(7);
+        match mode {
+            0 => tail = Some(r.below(t.max(1) as usize + 1) as u64), // constant delay in [0, T]
+            1 => {
+                // uniform per ping in [0, T]
+                delays = (0..60).map(|_| Some(r.below(t.max(1) as usize + 1) as u64)).collect();
+                tail = Some(0);
+            }
+            2 => {
+                // adversarially uneven: alternate immediate and exactly-T answers
+                delays = (0..60).map(|k| Some(if (k + r.below(2)) % 2 == 0 { 0 } else { t })).collect();
+                tail = Some(0);
+            }
+            3 => {
+                // answered for k rounds, then silent
+                let k = r.below(6);
+                delays = (0..k).map(|_| Some(r.below((t / 2).max(1) as usize + 1) as u64)).collect();
+                tail = None;
+            }
+            4 => tail = None, // never answered
+            5 => {
+                // answered, but later than T + I: not a live peer
+                tail = Some(t + i_ms + 1 + r.below(3 * i_ms.max(1) as usize) as u64);
+            }
+            _ => {
+                // small delays, far inside T
+                delays = (0..60).map(|_| Some(r.below((i_ms.min(t) / 4).max(1) as usize) as u64)).collect();
+                tail = Some(0);
+            }
+        }
+        let plan = C16Plan { interval_ms: i_ms, timeout_ms: t_req, delays, tail, link: LinkCfg { window: 1 << 20, latency_ms: 0, drop_after_close: r.chance(1, 2) }, weights: gen_weights(r) };
+        (serde_json::to_value(plan).expect("plan"), seed)
+    }
+    fn exec(&self, plan: &Value, sched: &Sched, record: bool) -> Outcome {
+        let Ok(plan) = serde_json::from_value::<C16Plan>(plan.clone()) else { return Outcome::default() };
+        run_c16(&plan, sched, record)
+    }
+    fn rule(&self) -> &'static str {
+        "one real endpoint built with a timestamp provider that reads the paused virtual clock, (I, T) from {0.5,1,2,3,5,25} x {0.5,1,2,3,7,60} s set through the builder in its documented order (T < I is clamped) plus disabled values; the raw peer answers ping k after a scripted delay: constant in [0,T], uniform in [0,T], alternating 0 / exactly T, k rounds then dead (the transport then returns nothing at all), never, later than T+I, or far inside T. Horizon max(50 I, T + 12 I). Oracle: ping k leaves at exactly k*I; a dead peer is detected with T <= age of the last pong (event order) <= T + I and every pending call then resolves; a peer answering every ping within T is never timed out; disabled = no ping, no end. Non-trivial: at least 3 ping rounds."
+    }
+}
+pub fn c16() -> Check {
+    Check {
+        property: "C16",
+        engine: "muxsim",
+        level: "exploration",
+        families: vec![Box::new(C16Family)],
+        required_probes: vec!["keepalive-timeout-fired", "live-peer-never-timed-out", "keepalive-disabled", "timeout-clamped-to-interval", "pings-without-timeout"],
+        assumptions: vec!["tokio's paused clock is the only clock: the TimestampProvider type parameter (existing seam) reads it", "a dead peer is a transport that returns nothing, not even Close"],
+        real: vec!["penguin_mux connection task incl. schedule_ping_task and wind_down", "penguin_mux::config::Options builder (clamping)", "penguin_mux::timing (OptionalDuration, OptionalInterval)", "tokio::time::interval on the paused timer wheel"],
+        stub: vec!["the peer's WebSocket stack (scripted Pong delays)", "WebSocket transport", "scheduler"],
+    }
+}
+
+// ------------------------------------------------------------------ C18 (E3 stream-fault simulator)
+
+use crate::socks::*;
+pub struct C18Family {
+    pub name: &'static str,
+    /// sweep every cut offset (x EOF / error / left open) of generated requests
+    pub sweep: bool,
+}
+fn gen_addr(r: &mut Prng) -> Addr {
+    match r.below(3) {
+        0 => Addr::V4([1 + r.below(255) as u8, r.next() as u8, r.next() as u8, r.next() as u8]),
+        1 => Addr::V6(r.bytes(16)),
+        _ => {
+            let rnd = 1 + r.below(254);
+            let n = *r.pick(&[0usize, 1, 5, 255, rnd]);
+            Addr::Domain((0..n).map(|_| b'a' + r.below(26) as u8).collect())
+        }
+    }
+}
+fn gen_io(r: &mut Prng, total: usize) -> IoScript {
+    IoScript {
+        chunks: match r.below(4) {
+            0 => vec![1],
+            1 => vec![],
+            _ => (0..(1 + r.below(5))).map(|_| r.below(9)).collect(),
+        },
+        cut: if r.chance(1, 2) { usize::MAX >> 1 } else { r.below(total + 2) },
+        end: match r.below(3) {
+            0 => EndMode::Eof,
+            1 => EndMode::Err,
+            _ => EndMode::Open,
+        },
+        writes: if r.chance(1, 2) { vec![] } else { (0..(1 + r.below(4))).map(|_| r.below(5)).collect() },
+        write_err_at: if r.chance(1, 8) { 1 + r.below(3) } else { 0 },
+        bufreader: if r.chance(1, 2) { 0 } else { *r.pick(&[1usize, 2, 7, 64, 8192]) },
+    }
+}
+fn gen_request(r: &mut Prng) -> Case {
+    if r.chance(1, 2) {
+        let addr = gen_addr(r);
+        Case::V5Request { ver: if r.chance(1, 12) { *r.pick(&[0u8, 4, 6, 255]) } else { 5 }, cmd: if r.chance(1, 5) { r.next() as u8 } else { 1 + r.below(3) as u8 }, rsv: if r.chance(1, 6) { r.next() as u8 } else { 0 }, atyp_override: if r.chance(1, 12) { Some(*r.pick(&[0u8, 2, 5, 9, 255])) } else { None }, addr, port: r.next() as u16 }
+    } else {
+        let is4a = r.chance(1, 2);
+        let ip = if is4a { [0, 0, 0, 1 + r.below(255) as u8] } else { [1 + r.below(255) as u8, r.next() as u8, r.next() as u8, r.next() as u8] };
+        let ulen = *r.pick(&[0usize, 1, 8, 300]);
+        let dlen = *r.pick(&[0usize, 1, 11, 255, 400]);
+        Case::V4Request { cmd: if r.chance(1, 5) { r.next() as u8 } else { 1 + r.below(2) as u8 }, port: r.next() as u16, ip, user: r.bytes(ulen), user_nul: !r.chance(1, 8), domain: if is4a { Some((0..dlen).map(|_| b'a' + r.below(26) as u8).collect()) } else { None }, domain_nul: !r.chance(1, 6) }
+    }
+}
+fn request_len(c: &Case) -> usize {
+    match c {
+        Case::V5Request { addr, .. } => 4 + match addr { Addr::V4(_) => 4, Addr::V6(_) => 16, Addr::Domain(d) => 1 + d.len().min(255) } + 2,
+        Case::V4Request { user, user_nul, domain, domain_nul, .. } => 7 + user.len() + *user_nul as usize + domain.as_ref().map(|d| d.len() + *domain_nul as usize).unwrap_or(0),
+        _ => 0,
+    }
+}
+impl Family for C18Family {
+    fn name(&self) -> &'static str {
+        self.name
+    }
+    fn runs(&self, tier: Tier) -> u64 {
+        match (self.sweep, tier) {
+            (false, Tier::Quick) => 400_000,
+            (false, Tier::Thorough) => 20_000_000,
+            (true, Tier::Quick) => 600 * 256,
+            (true, Tier::Thorough) => 40_000 * 256,
+        }
+    }
+    fn generate(&self, batch_seed: u64, index: u64, _tier: Tier) -> (Value, u64) {
+        if self.sweep {
+            // one request per group of 256 indices; the cut offset walks over every byte offset,
+            // the end mode over {EOF, error, left open}
+            let seed = simcore::prng::mix(batch_seed, self.name, index / 256);
+            let mut r = Prng::new(seed);
+            let mut case = gen_request(&mut r);
+            // keep the request short enough for the sweep to cover every offset with every end mode
+            match &mut case {
+                Case::V5Request { addr: Addr::Domain(d), .. } => d.truncate(60),
+                Case::V4Request { user, domain, .. } => {
+                    user.truncate(20);
+                    if let Some(d) = domain {
+                        d.truncate(40);
+                    }
+                }
+                _ => {}
+            }
+            let len = request_len(&case);
+            let mut io = gen_io(&mut r, len);
+            let k = (index % 256) as usize;
+            io.cut = k / 3;
+            io.end = [EndMode::Eof, EndMode::Err, EndMode::Open][k % 3].clone();
+            io.write_err_at = 0;
+            let tl = r.below(4);
+            let trailing = r.bytes(tl);
+            return (serde_json::to_value(C18Plan { case, trailing, io }).expect("plan"), seed);
+        }
+        let seed = simcore::prng::mix(batch_seed, self.name, index);
+        let mut r = Prng::new(seed);
+        let r = &mut r;
+        let case = match r.below(12) {
+            0..=5 => gen_request(r),
+            6 => Case::V5Auth { methods: { let n = *r.pick(&[0usize, 1, 3, 255]); r.bytes(n) }, declared: if r.chance(1, 5) { Some(r.next() as u8) } else { None } },
+            7 => Case::V5Reply { code: r.below(10) as u8, v6: r.chance(1, 2), ip: r.bytes(16), port: r.next() as u16 },
+            8 => match r.below(3) {
+                0 => Case::V5ReplyUnspec { code: r.below(10) as u8 },
+                1 => Case::V5AuthReply { method: *r.pick(&[0u8, 1, 2, 255]) },
+                _ => Case::V4Reply { code: 90 + r.below(4) as u8 },
+            },
+            9 => Case::UdpBuild { v6: r.chance(1, 2), ip: r.bytes(16), port: r.next() as u16, payload: { let n = *r.pick(&[0usize, 1, 2, 30, 1400]); r.bytes(n) } },
+            _ => {
+                let addr = gen_addr(r);
+                let natural = match addr { Addr::V4(_) => 1, Addr::Domain(_) => 3, Addr::V6(_) => 4 };
+                let plen = *r.pick(&[0usize, 1, 50]);
+                Case::UdpParse { frag: if r.chance(1, 6) { 1 + r.below(255) as u8 } else { 0 }, atyp: if r.chance(1, 8) { *r.pick(&[0u8, 2, 5, 200]) } else { natural }, addr, port: r.next() as u16, payload: r.bytes(plen), truncate: if r.chance(1, 3) { Some(r.below(30)) } else { None } }
+            }
+        };
+        let len = request_len(&case);
+        let io = gen_io(r, len);
+        let tl = r.below(6);
+        let trailing = r.bytes(tl);
+        (serde_json::to_value(C18Plan { case, trailing, io }).expect("plan"), seed)
+    }
+    fn exec(&self, plan: &Value, sched: &Sched, _record: bool) -> Outcome {
+        let Ok(plan) = serde_json::from_value::<C18Plan>(plan.clone()) else { return Outcome::default() };
+        run_c18(&plan, sched)
+    }
+    fn rule(&self) -> &'static str {
+        if self.sweep {
+            "cut sweep: for each generated SOCKS4/4a/5 request the input is cut at EVERY byte offset 0..84, each with end-of-stream, an I/O error, or the connection left open and silent; chunking and BufReader capacity stay fixed per request."
+        } else {
+            "requests from a reference grammar (SOCKS4 literal IP, SOCKS4a domain 0..400 bytes, SOCKS5 every ATYP, domain length 0/1/5/255/random, all commands, bad versions / address types, user-ids 0..300 bytes, NUL terminators present or missing), served through the scripted stream under seeded chunkings (1-byte chunks, spurious Pending, direct AsyncBufRead or BufReader of capacity 1..8192), followed by trailing bytes, or cut at a seeded offset with EOF / error / left open; reply writers for every code and bound address under partial writes, Pending and write errors; UDP relay header build (parsed by an independent RFC 1928 client parser) and parse (reference-encoded headers, FRAG != 0, unknown ATYP, truncations). SOCKS4 addresses 0.0.0.0 and 0.x.y.z are unspecified and not generated."
+        }
+    }
+}
+pub fn c18() -> Check {
+    Check {
+        property: "C18",
+        engine: "muxsim",
+        level: "fault_enumeration",
+        families: vec![Box::new(C18Family { name: "messages", sweep: false }), Box::new(C18Family { name: "cut-sweep", sweep: true })],
+        required_probes: vec!["v5-request-ok", "v4-request-ok", "v5-auth-ok", "reply-ok", "udp-header-built", "udp-header-parsed", "reader-keeps-waiting", "request-rejected", "fault:cut-inside-request", "fault:reply-write-error"],
+        assumptions: vec!["addresses are compared by value (parsed IP), not by textual form", "SOCKS4 requests with DSTIP 0.0.0.0 or 0.x.y.z (x..!=0) are unspecified and not judged"],
+        real: vec!["penguin_socks::v4::{read_request, write_response}", "penguin_socks::v5::{read_auth_methods, write_auth_method, read_request, write_response, write_response_unspecified, parse_udp_relay_header, udp_relay_response}", "tokio::io::BufReader / AsyncReadExt / AsyncBufReadExt"],
+        stub: vec!["the byte stream (scripted chunking, Pending, EOF, errors, short writes)", "the SOCKS client (reference grammar / RFC 1928 parser)"],
     }
 }
